@@ -27,6 +27,8 @@ pub enum Pat {
     DenseThenSparse,
     /// symbol i/ (n/sigma): sigma long runs of equal length
     Blocks,
+    /// first two thirds constant (symbol 0), last third periodic over 1..sigma
+    ConstThenPeriodic,
 }
 
 pub fn tiny_count(k: u32, len: u32) -> u64 {
@@ -83,6 +85,13 @@ impl Gen {
                         Pat::Blocks => {
                             let b = (n + s as usize - 1) / s as usize;
                             (i / b.max(1)) as u32
+                        }
+                        Pat::ConstThenPeriodic => {
+                            if i < 2 * n / 3 || s == 1 {
+                                0
+                            } else {
+                                1 + (i as u32) % (s - 1)
+                            }
                         }
                     })
                     .collect()
